@@ -17,9 +17,16 @@
 //           captures inside the function object equals the model's, and nothing is alive after the
 //           function object is destroyed.
 //
+// Round 2: the same state machine is instantiated for the call signatures void(), int(int,int), int(MoveOnly&&)
+// and int&(int) (signature adapters Sig1..Sig4 below; -DMC_PART=2): the target kinds, the action menu and the model
+// are identical, only the way a call is made and its result is observed differs (void(): argument and result travel
+// through globals; int(int,int): the second argument must arrive as first+1000; int(MoveOnly&&): the argument must
+// arrive as the very same object, neither copied nor moved; int&(int): the returned reference must name the cell the
+// target returned).
+//
 // API gaps (not exercised, they do not compile): inplace_function<void(...)> around a callable that
 // returns a value; member pointers as targets; conversion to a smaller capacity (static_assert);
-// move-only callables (static_assert).
+// move-only callables (static_assert); const- or noexcept-qualified signatures.
 #include "c20_common.hpp"
 
 #include <etl/functional.hpp>
@@ -54,31 +61,160 @@ char const* kind_name(int k)
 
 int encode(int kind, int v, int count) { return 1000 * (kind + 1) + 100 * v + 10 * count; }
 
+using MOArg = mc::Tracked<mc::move_only>;
+int g_arg = 0;      // void(): the argument travels through a global
+int g_ret = -12345; // void() / int&(int): the result cell
+void const* g_arg_addr = nullptr;
+
 // x < 0 is a "peek": the target reports its identity and state without logging or mutating
 template <int V>
-int fp(int x)
+int fp_go(int x)
 {
     if (x < 0) { return encode(k_fp, V, 0); }
     rec(k_fp, '&', x);
     return encode(k_fp, V, 0) + x;
 }
-using fp_t = int (*)(int);
-fp_t fp_of(int v)
+template <int V>
+int fp(int x)
 {
-    switch (v) {
-    case 0: return &fp<0>;
-    case 1: return &fp<1>;
-    case 2: return &fp<2>;
-    default: return &fp<3>;
-    }
+    return fp_go<V>(x);
 }
+template <int V>
+void fp_void()
+{
+    g_ret = fp_go<V>(g_arg);
+}
+template <int V>
+int fp_two(int x, int y)
+{
+    return y == x + 1000 ? fp_go<V>(x) : -8888;
+}
+template <int V>
+int fp_mo(MOArg&& m)
+{
+    g_arg_addr = &m;
+    return fp_go<V>(m.value());
+}
+template <int V>
+int& fp_ref(int x)
+{
+    g_ret = fp_go<V>(x);
+    return g_ret;
+}
+#define C20_FP_OF(NAME)                                                                                                          \
+    switch (v) {                                                                                                                 \
+    case 0: return &NAME<0>;                                                                                                     \
+    case 1: return &NAME<1>;                                                                                                     \
+    case 2: return &NAME<2>;                                                                                                     \
+    default: return &NAME<3>;                                                                                                    \
+    }
 
+// signature adapters: how a call with the abstract argument x is made and what abstract result it produced
+struct Sig0 {
+    static constexpr int id = 0;
+    using sig               = int(int);
+    static char const* name() { return "int(int)"; }
+    static auto fp_of(int v) -> int (*)(int) { C20_FP_OF(fp) }
+    template <typename Fn>
+    static int call(Fn&& f, int x)
+    {
+        return f(x);
+    }
+};
+struct Sig1 {
+    static constexpr int id = 1;
+    using sig               = void();
+    static char const* name() { return "void()"; }
+    static auto fp_of(int v) -> void (*)() { C20_FP_OF(fp_void) }
+    template <typename Fn>
+    static int call(Fn&& f, int x)
+    {
+        g_arg = x;
+        g_ret = -12345; // stays if nothing was called
+        static_assert(std::is_void_v<decltype(f())>);
+        f();
+        return g_ret;
+    }
+};
+struct Sig2 {
+    static constexpr int id = 2;
+    using sig               = int(int, int);
+    static char const* name() { return "int(int,int)"; }
+    static auto fp_of(int v) -> int (*)(int, int) { C20_FP_OF(fp_two) }
+    template <typename Fn>
+    static int call(Fn&& f, int x)
+    {
+        return f(x, x + 1000);
+    }
+};
+struct Sig3 {
+    static constexpr int id = 3;
+    using sig               = int(MOArg&&);
+    static char const* name() { return "int(MoveOnly&&)"; }
+    static auto fp_of(int v) -> int (*)(MOArg&&) { C20_FP_OF(fp_mo) }
+    template <typename Fn>
+    static int call(Fn&& f, int x)
+    {
+        MOArg m(x);
+        g_arg_addr        = nullptr;
+        auto const moves  = registry().moves;
+        int const r       = f(std::move(m));
+        if (registry().moves != moves) { return -9999; } // the argument was moved on its way to the target
+        if (g_arg_addr != nullptr && g_arg_addr != &m) { return -9997; } // the target saw another object
+        if (m.value() != x) { return -9996; }
+        return r;
+    }
+};
+struct Sig4 {
+    static constexpr int id = 4;
+    using sig               = int&(int);
+    static char const* name() { return "int&(int)"; }
+    static auto fp_of(int v) -> int& (*)(int) { C20_FP_OF(fp_ref) }
+    template <typename Fn>
+    static int call(Fn&& f, int x)
+    {
+        static_assert(std::is_same_v<decltype(f(x)), int&>);
+        int& r = f(x);
+        if (&r != &g_ret) { return -9998; } // not the cell the target returned
+        return r;
+    }
+};
+
+#define C20_CALL_OPERATORS_Q(QUAL, QC)                                                                                          \
+    int operator()(int x) QUAL                                                                                                   \
+        requires(S::id == 0)                                                                                                     \
+    {                                                                                                                            \
+        return go(QC, x);                                                                                                        \
+    }                                                                                                                            \
+    void operator()() QUAL                                                                                                       \
+        requires(S::id == 1)                                                                                                     \
+    {                                                                                                                            \
+        g_ret = go(QC, g_arg);                                                                                                   \
+    }                                                                                                                            \
+    int operator()(int x, int y) QUAL                                                                                            \
+        requires(S::id == 2)                                                                                                     \
+    {                                                                                                                            \
+        return y == x + 1000 ? go(QC, x) : -8888;                                                                                \
+    }                                                                                                                            \
+    int operator()(MOArg&& m) QUAL                                                                                               \
+        requires(S::id == 3)                                                                                                     \
+    {                                                                                                                            \
+        g_arg_addr = &m;                                                                                                         \
+        return go(QC, m.value());                                                                                                \
+    }                                                                                                                            \
+    int& operator()(int x) QUAL                                                                                                  \
+        requires(S::id == 4)                                                                                                     \
+    {                                                                                                                            \
+        g_ret = go(QC, x);                                                                                                       \
+        return g_ret;                                                                                                            \
+    }
 #define C20_CALL_OPERATORS                                                                                                       \
-    int operator()(int x) & { return go('&', x); }                                                                               \
-    int operator()(int x) const& { return go('c', x); }                                                                          \
-    int operator()(int x) && { return go('r', x); }                                                                              \
-    int operator()(int x) const&& { return go('k', x); }
+    C20_CALL_OPERATORS_Q(&, '&')                                                                                                 \
+    C20_CALL_OPERATORS_Q(const&, 'c')                                                                                            \
+    C20_CALL_OPERATORS_Q(&&, 'r')                                                                                                \
+    C20_CALL_OPERATORS_Q(const&&, 'k')
 
+template <typename S>
 struct Small {
     int v;
     C20_CALL_OPERATORS
@@ -89,11 +225,11 @@ struct Small {
         return encode(k_small, v, 0) + x;
     }
 };
-static_assert(std::is_trivially_copyable_v<Small>);
+static_assert(std::is_trivially_copyable_v<Small<Sig0>>);
 
 using TC = mc::Tracked<mc::copy_move>;
 
-template <std::size_t Cap>
+template <std::size_t Cap, typename S>
 struct Big {
     TC t;
     unsigned char pad[Cap - sizeof(TC)];
@@ -115,7 +251,7 @@ struct Big {
     }
 };
 
-template <int CMAX>
+template <int CMAX, typename S>
 struct Counter {
     int v;
     mutable int count;
@@ -128,9 +264,9 @@ struct Counter {
         return encode(k_counter, v, count) + x;
     }
 };
-static_assert(std::is_trivially_copyable_v<Counter<2>>);
+static_assert(std::is_trivially_copyable_v<Counter<2, Sig0>>);
 
-template <int CMAX>
+template <int CMAX, typename S>
 struct TCounter {
     TC t;
     mutable int count{0};
@@ -213,18 +349,18 @@ struct Model {
     int count{0};
 };
 
-template <std::size_t Cap, int NV, int CMAX>
+template <std::size_t Cap, int NV, int CMAX, typename S = Sig0>
 struct FnSys {
-    using V      = etl::inplace_function<int(int), Cap>;
-    using VL     = etl::inplace_function<int(int), 2 * Cap>;
-    using VS     = etl::inplace_function<int(int), 8>;
+    using V      = etl::inplace_function<typename S::sig, Cap>;
+    using VL     = etl::inplace_function<typename S::sig, 2 * Cap>;
+    using VS     = etl::inplace_function<typename S::sig, 8>;
     using State  = Box<V, Model>;
     using Action = c20::Action;
     static constexpr bool has_small = Cap > 8;
-    static_assert(sizeof(Big<Cap>) == Cap, "the capacity-filling functor must fill the capacity exactly");
-    static_assert(sizeof(TCounter<CMAX>) <= 8 && sizeof(Counter<CMAX>) <= 8);
+    static_assert(sizeof(Big<Cap, S>) == Cap, "the capacity-filling functor must fill the capacity exactly");
+    static_assert(sizeof(TCounter<CMAX, S>) <= 8 && sizeof(Counter<CMAX, S>) <= 8);
 
-    std::string name() const { return cat("inplace_function<int(int),", Cap, "> values<", NV, " counter<=", CMAX); }
+    std::string name() const { return cat("inplace_function<", S::name(), ",", Cap, "> values<", NV, " counter<=", CMAX); }
     std::string family() const { return "inplace_function"; }
     std::string show(Action const& a) const
     {
@@ -259,11 +395,11 @@ struct FnSys {
     static void with_callable(int kind, int v, F&& f)
     {
         switch (kind) {
-        case k_fp: f(fp_of(v)); break;
-        case k_small: f(Small{v}); break;
-        case k_big: f(Big<Cap>(v)); break;
-        case k_counter: f(Counter<CMAX>{v, 0}); break;
-        default: f(TCounter<CMAX>(v)); break;
+        case k_fp: f(S::fp_of(v)); break;
+        case k_small: f(Small<S>{v}); break;
+        case k_big: f(Big<Cap, S>(v)); break;
+        case k_counter: f(Counter<CMAX, S>{v, 0}); break;
+        default: f(TCounter<CMAX, S>(v)); break;
         }
     }
     // kinds that fit into the 8-byte function type
@@ -271,10 +407,10 @@ struct FnSys {
     static void with_small_callable(int kind, int v, F&& f)
     {
         switch (kind) {
-        case k_fp: f(fp_of(v)); break;
-        case k_small: f(Small{v}); break;
-        case k_counter: f(Counter<CMAX>{v, 0}); break;
-        default: f(TCounter<CMAX>(v)); break;
+        case k_fp: f(S::fp_of(v)); break;
+        case k_small: f(Small<S>{v}); break;
+        case k_counter: f(Counter<CMAX, S>{v, 0}); break;
+        default: f(TCounter<CMAX, S>(v)); break;
         }
     }
 
@@ -338,7 +474,7 @@ struct FnSys {
         ok &= ceq(cx, "C20", subj, cls, cat(what, ": nullptr == f"), nullptr == f, m.kind < 0);
         ok &= ceq(cx, "C20", subj, cls, cat(what, ": f != nullptr"), f != nullptr, m.kind >= 0);
         ok &= ceq(cx, "C20", subj, cls, cat(what, ": nullptr != f"), nullptr != f, m.kind >= 0);
-        if (b) { ok &= ceq(cx, "C20", subj, cls, cat(what, ": identity and state of the stored target"), f(-1), peek_of(m)); }
+        if (b) { ok &= ceq(cx, "C20", subj, cls, cat(what, ": identity and state of the stored target"), S::call(f, -1), peek_of(m)); }
         return ok;
     }
 
@@ -347,7 +483,7 @@ struct FnSys {
     void call_once(Cx& cx, std::string const& subj, std::string const& cls, Fn& f, Model& m, int x, int& expected_calls, char const* what) const
     {
         int const before = g_rec.calls;
-        int const got    = f(x);
+        int const got    = S::call(f, x);
         int const want   = model_call(m, x);
         ++expected_calls;
         ceq(cx, "C20", subj, cls, cat(what, ": result of the call"), got, want);
@@ -410,7 +546,7 @@ struct FnSys {
             with_callable(a.a, a.b, [&](auto&& c) {
                 auto const& cc = c;
                 s.recreate(cc);
-                ceq(cx, "C20", subj, cls, "source callable after being copied in", cc(-1), encode(a.a, a.b, 0));
+                ceq(cx, "C20", subj, cls, "source callable after being copied in", S::call(cc, -1), encode(a.a, a.b, 0));
             });
             m = Model{a.a, a.b, 0};
             break;
@@ -512,7 +648,7 @@ struct FnSys {
             with_callable(a.a, a.b, [&](auto&& c) {
                 auto const& cc = c;
                 v              = cc;
-                ceq(cx, "C20", subj, cls, "source callable after being copied in", cc(-1), encode(a.a, a.b, 0));
+                ceq(cx, "C20", subj, cls, "source callable after being copied in", S::call(cc, -1), encode(a.a, a.b, 0));
             });
             m = Model{a.a, a.b, 0};
             break;
@@ -547,8 +683,12 @@ struct FnSys {
         case call: {
             if (m.kind < 0) {
                 int r      = 0;
-                mc::Trap t = mc::guarded([&] { r = v(a.a); });
+                mc::Trap t = mc::guarded([&] { r = S::call(v, a.a); });
                 cx.r.count("empty_calls");
+                if constexpr (S::id == 3) {
+                    // the trap unwinds past the adapter's argument object without destroying it
+                    if (t != mc::Trap::none) { purge_outside(s.lo(), s.hi(), nullptr, nullptr); }
+                }
                 if (t == mc::Trap::none) {
                     cx.fail("C20", subj, cls, cat("calling an empty inplace_function returned ", r, " instead of reaching etl::exception_handler"));
                 } else if (t != mc::Trap::exception_raised) {
@@ -629,7 +769,7 @@ struct FnSys {
     std::string obs(State const& s) const
     {
         if (!static_cast<bool>(*s.v)) { return "E"; }
-        return cat("F", (*s.v)(-1));
+        return cat("F", S::call(*s.v, -1));
     }
     std::string key(State const& s) const { return cat(s.m.kind, ",", s.m.v, ",", s.m.count, "|", obs(s)); }
 
@@ -656,6 +796,7 @@ int main(int argc, char** argv)
     mc::Main m(argc, argv);
     std::vector<std::string> const both{"quick", "thorough"};
     std::vector<std::string> const th{"thorough"};
+#if !defined(MC_PART) || MC_PART == 1
     m.job("inplace_function<int(int),8>/v2c2", both, [](mc::Reporter& r) { explore<FnSys<8, 2, 2>>(r); });
     m.job("inplace_function<int(int),16>/v2c2", both, [](mc::Reporter& r) { explore<FnSys<16, 2, 2>>(r); });
     m.job("inplace_function<int(int),32>/v2c2", both, [](mc::Reporter& r) { explore<FnSys<32, 2, 2>>(r); });
@@ -663,5 +804,23 @@ int main(int argc, char** argv)
     m.job("inplace_function<int(int),16>/v3c3", th, [](mc::Reporter& r) { explore<FnSys<16, 3, 3>>(r); });
     m.job("inplace_function<int(int),24>/v3c3", th, [](mc::Reporter& r) { explore<FnSys<24, 3, 3>>(r); });
     m.job("inplace_function<int(int),64>/v3c3", th, [](mc::Reporter& r) { explore<FnSys<64, 3, 3>>(r); });
+#endif
+#if !defined(MC_PART) || MC_PART == 2
+    // round 2: the other call signatures
+    m.job("inplace_function<void(),16>/v2c2", both, [](mc::Reporter& r) { explore<FnSys<16, 2, 2, Sig1>>(r); });
+    m.job("inplace_function<int(int,int),16>/v2c2", both, [](mc::Reporter& r) { explore<FnSys<16, 2, 2, Sig2>>(r); });
+    m.job("inplace_function<int(MoveOnly&&),16>/v2c2", both, [](mc::Reporter& r) { explore<FnSys<16, 2, 2, Sig3>>(r); });
+    m.job("inplace_function<int&(int),16>/v2c2", both, [](mc::Reporter& r) { explore<FnSys<16, 2, 2, Sig4>>(r); });
+#endif
+#if !defined(MC_PART) || MC_PART == 3
+    m.job("inplace_function<void(),8>/v2c2", th, [](mc::Reporter& r) { explore<FnSys<8, 2, 2, Sig1>>(r); });
+    m.job("inplace_function<void(),32>/v3c3", th, [](mc::Reporter& r) { explore<FnSys<32, 3, 3, Sig1>>(r); });
+    m.job("inplace_function<int(int,int),8>/v2c2", th, [](mc::Reporter& r) { explore<FnSys<8, 2, 2, Sig2>>(r); });
+    m.job("inplace_function<int(int,int),32>/v3c3", th, [](mc::Reporter& r) { explore<FnSys<32, 3, 3, Sig2>>(r); });
+    m.job("inplace_function<int(MoveOnly&&),8>/v2c2", th, [](mc::Reporter& r) { explore<FnSys<8, 2, 2, Sig3>>(r); });
+    m.job("inplace_function<int(MoveOnly&&),32>/v3c3", th, [](mc::Reporter& r) { explore<FnSys<32, 3, 3, Sig3>>(r); });
+    m.job("inplace_function<int&(int),8>/v2c2", th, [](mc::Reporter& r) { explore<FnSys<8, 2, 2, Sig4>>(r); });
+    m.job("inplace_function<int&(int),32>/v3c3", th, [](mc::Reporter& r) { explore<FnSys<32, 3, 3, Sig4>>(r); });
+#endif
     return m.run();
 }
